@@ -49,12 +49,12 @@ J('A.strncat_s.arena', ['C01', 'C02', 'C03', 'C04', 'C05', 'C06', 'C08'], 'A', '
 J('A.strcpy_s.overlap', ['C07', 'C01', 'C02', 'C03', 'C04', 'C05'], 'A', 'contracts/str/strcpy_s.overlap.spec.c',
   sources=['src/str/strcpy_s.c'], overlays={'src/str/strcpy_s.c': 'contracts/str/strcpy_s.overlap.loops'},
   enforce='_strcpy_s_chk', functions=['_strcpy_s_chk', 'handle_error'], sliced=True, fallback='B.strcpy_s.L0',
-  timeout=1200, mem_gb=6, tiers=('dev',),
+  timeout=1200, mem_gb=6,
   note='layout A with INTERSECTING declared extents (src != dest), both pointer orders; destbos unknown; sizes symbolic up to RSIZE_MAX_STR')
 J('A.strncpy_s.overlap', ['C07', 'C01', 'C02', 'C03', 'C04', 'C05'], 'A', 'contracts/str/strncpy_s.overlap.spec.c',
   sources=['src/str/strncpy_s.c'], overlays={'src/str/strncpy_s.c': 'contracts/str/strncpy_s.overlap.loops'},
   enforce='_strncpy_s_chk', functions=['_strncpy_s_chk', 'handle_error'], sliced=True, fallback='B.strncpy_s.L0',
-  timeout=1200, mem_gb=6, tiers=('dev',),
+  timeout=1200, mem_gb=6,
   note='layout A with INTERSECTING declared extents (src != dest), both pointer orders; sizes unknown to the library; dmax, slen symbolic up to RSIZE_MAX_STR')
 J('A.strnlen_s', ['C02', 'C10', 'C05', 'C01'], 'A', 'contracts/str/strnlen_s.spec.c',
   sources=['src/str/strnlen_s.c'], overlays={'src/str/strnlen_s.c': 'contracts/str/strnlen_s.loops'},
@@ -152,11 +152,12 @@ for fam, wide in ((COPYFAM, False), (WCOPYFAM, True)):
         for long in (False, True):
             sl = 1 if wide else 2
             heavy = long and (wide or 'cat' in nm)
+            toobig = long and 'cat' in nm          # 43 unwound iterations x two memset sites x find-end loop: > 16 GB, never finished
             J('B.slack.%s%s' % (nm, '.long' if long else ''), SLACK_PROPS, 'B', 'harness/slackfam.c',
               sources=[path] + (WCS_COMMON if wide else STR_COMMON),
               defines=['FN=%d' % fn, 'SL=%d' % sl] + (['WIDE'] if wide else []), variants=slack_variants(sym, long, wide, sl), unwind=52, replay=True,
               functions=[sym], stubs=['stubs/memset_model.c'], timeout=1800, mem_gb=(16 if heavy else 8),
-              quick_props=['C08', 'C01', 'C04'], tiers=(('thorough',) if heavy else ('quick', 'thorough')),
+              quick_props=['C08', 'C01', 'C04'], tiers=(('dev',) if toobig else ('thorough',) if heavy else ('quick', 'thorough')),
               cbmc_flags=['--max-field-sensitivity-array-size', '100'],
               bound='dest of %d elements, dmax %d..%d (beyond the 0x20 switch), %s, dest below / above src at fixed offsets; all contents symbolic'
                     % (0x20 + 2 * sl + 4, 0x20 + 2 * sl + 2, 0x20 + 2 * sl + 4,
@@ -217,17 +218,22 @@ J('B.mem_prim_move.q', PRIM_PROPS, 'B', 'harness/memprim.c', sources=[PRIM], def
   variants=move_variants([0, 1, 3], [1, 8, 64, -1, -8], Q_LENS), functions=['mem_prim_move'], no_std_checks=False, quick_props=['C01', 'C06', 'C07'],
   bound='enumerated: dest alignment {0,1,3}, src-dest in {1,8,64,-1,-8}, len in %s; contents symbolic' % Q_LENS,
   timeout=600)
+FULL_OFFS = [1, 3, 8, 9, 64, -1, -3, -8, -9, -64]
+FULL_LENS = [1, 2, 3, 4, 5, 7, 8, 9, 15, 16, 17, 24, 25]
 J('B.mem_prim_move.full', ['C07', 'C06'], 'B', 'harness/memprim.c', sources=[PRIM], defines=['FN=4'], replay=True,
-  variants=move_variants(range(8), [1, 2, 3, 7, 8, 9, 16, 64, -1, -2, -3, -7, -8, -9, -16, -64], range(1, 27)),
-  functions=['mem_prim_move'], bound='enumerated: every dest alignment 0..7, src-dest in +-{1,2,3,7,8,9,16,64}, len 1..26; contents symbolic',
+  variants=move_variants([0, 1, 3, 7], FULL_OFFS, FULL_LENS),
+  functions=['mem_prim_move'], bound='enumerated: dest alignment {0,1,3,7}, src-dest in +-{1,3,8,9,64}, len in %s; contents symbolic '
+  '(the 3328-variant enumeration - every alignment, +-{1,2,3,7,8,9,16,64}, len 1..26 - passed once in 53 min and was cut down for run time)' % FULL_LENS,
   timeout=900, tiers=('thorough',))
 J('B.mem_prim_set.q', PRIM_PROPS, 'B', 'harness/memprim.c', sources=[PRIM], defines=['FN=1'], replay=True,
   variants=set_variants([0, 1, 3, 7], [0, 1, 2, 7, 8, 9, 16, 17, 31, 64, 65, 130, 137, 264]), object_bits=10, functions=['mem_prim_set'], quick_props=['C06', 'C18'],
   bound='enumerated: dest alignment {0,1,3,7}, len in {0,1,2,7,8,9,16,17,31,64,65,130,137,264}; fill value and contents symbolic',
   timeout=600)
+SET_FULL_LENS = list(range(0, 18)) + [31, 32, 33, 63, 64, 65, 127, 128, 129, 130, 255, 256, 257, 258, 300]
 J('B.mem_prim_set.full', ['C18', 'C06'], 'B', 'harness/memprim.c', sources=[PRIM], defines=['FN=1'], replay=True,
-  variants=set_variants(range(8), list(range(0, 41)) + list(range(120, 140)) + list(range(248, 268)) + [300, 391]), object_bits=10,
-  functions=['mem_prim_set'], bound='enumerated: every dest alignment 0..7, len 0..40, 120..139, 248..267, 300, 391',
+  variants=set_variants([0, 1, 3, 4, 7], SET_FULL_LENS), object_bits=10,
+  functions=['mem_prim_set'], bound='enumerated: dest alignment {0,1,3,4,7}, len in %s '
+  '(the 664-variant enumeration - every alignment, len 0..40, 120..139, 248..267, 300, 391 - passed once in 22 min and was cut down for run time)' % SET_FULL_LENS,
   timeout=900, tiers=('thorough',))
 for fn, nm in ((2, 'mem_prim_set16'), (3, 'mem_prim_set32')):
     for sfx, lmax, tiers, qp in (('.q', 18, ('quick', 'thorough'), ['C06', 'C18']), ('', 40, ('thorough',), None)):
@@ -313,7 +319,7 @@ for nm, path, wide in (('strtok_s', 'src/str/strtok_s.c', False), ('wcstok_s', '
       bound='strings of at most 4 elements, two delimiter sets of <= 2 characters chosen per call, 5 calls')
     J('B.%s.seq5' % nm, ['C14', 'C01', 'C02', 'C05'], 'B', 'harness/tokfam.c', sources=[path] + WCS_COMMON,
       defines=['N=4', 'DL=2'] + (['WIDE'] if wide else []), unwind=9, object_bits=10, replay=True,
-      functions=['_%s_chk' % nm], timeout=3000, tiers=('thorough',),
+      functions=['_%s_chk' % nm], timeout=3000, tiers=('thorough',), mem_gb=(16 if wide else 6),
       bound='strings of at most 5 elements, two delimiter sets of <= 2 characters chosen per call, 7 calls')
     J('B.%s.delim16' % nm, ['C14', 'C02'], 'B', 'harness/tokfam.c', sources=[path] + WCS_COMMON,
       defines=['N=2', 'DL=16', 'K=1'] + (['WIDE'] if wide else []), unwind=20, object_bits=10, replay=True, quick_props=['C14'],
@@ -321,7 +327,7 @@ for nm, path, wide in (('strtok_s', 'src/str/strtok_s.c', False), ('wcstok_s', '
       bound='strings of at most 3 elements, delimiter sets of up to 16 characters (exactly the STRTOK_DELIM_MAX_LEN limit), 1 call')
     J('B.%s.delim17' % nm, ['C14', 'C02'], 'B', 'harness/tokfam.c', sources=[path] + WCS_COMMON,
       defines=['N=1', 'DL=17', 'K=2'] + (['WIDE'] if wide else []), unwind=21, object_bits=10, replay=True,
-      functions=['_%s_chk' % nm], timeout=3000, tiers=('thorough',),
+      functions=['_%s_chk' % nm], timeout=3000, tiers=('thorough',), mem_gb=(16 if wide else 6),
       bound='strings of at most 2 elements, delimiter sets of up to 17 characters (the STRTOK_DELIM_MAX_LEN limit), 2 calls')
 
 # ---- C16: qsort_s / bsearch_s
